@@ -121,8 +121,9 @@ def run_tlc(module, cfg=None, *, workers=None, env=None, timeout=1800, simulate=
     has_error = "Error:" in r.out
     r.ok = bool(finished and not has_error and p.returncode == 0)
     if not r.ok and not r.violated:
-        raise MachineryError("TLC failed (rc=%s) without a property verdict:\n%s\n%s" %
-                             (p.returncode, r.out[-4000:], p.stderr[-2000:]))
+        i0 = max(r.out.find("Error:"), 0)
+        raise MachineryError("TLC failed (rc=%s) without a property verdict:\n%s\n...\n%s" %
+                             (p.returncode, r.out[i0:i0 + 3500], p.stderr[-1000:]))
     # printed values (PrintT) -- every line that is not a known TLC message and starts a TLA value
     r.printed = [l for l in lines if l[:1] in "<[\"{" or re.match(r"^-?\d+$", l)]
     if coverage:
